@@ -555,7 +555,7 @@ impl VerifBox for BitswapBox {
                 "ok".into()
             }
             [
-                "conn" | "disc" | "conndead" | "dialfail" | "view" | "subopen" | "subfail" | "plan" | "resp"
+                "conn" | "disc" | "conndead" | "dialfail" | "view" | "subopen" | "subfail" | "plan" | "resp" | "burst"
                 | "req" | "insub" | "inmsg" | "inbad" | "inbig" | "inclose" | "inreset" | "inrest",
                 ..,
             ] => match self.proto.as_mut() {
